@@ -206,6 +206,9 @@ pub struct RouterWorld {
     /// violations raised by asynchronous steps (drains) since the last apply
     pub pending_viols: Vec<Violation>,
     pub prop: &'static str,
+    pub max_conn: usize,
+    /// late Disconnect events delivered for a slot that had a new occupant: (slot, whose)
+    pub stale_disc: Vec<(usize, String)>,
 }
 
 fn router_config(cfg: &Cfg) -> RouterConfig {
@@ -322,26 +325,30 @@ impl RouterWorld {
         self.outbox.push_back(mirror);
     }
 
-    /// push packets into the link's incoming buffer (no notification)
-    pub fn push(&mut self, ci: usize, txs: Vec<Tx>) {
+    /// push packets into the link's incoming buffer (no notification). Returns false when
+    /// the broker's decoder rejected a frame (a real link ends there).
+    pub fn push(&mut self, ci: usize, txs: Vec<Tx>) -> bool {
         let v5 = self.clients[ci].v5;
         let Some(l) = self.clients[ci].link.as_mut() else {
-            return;
+            return true;
         };
         for tx in txs {
+            if tx == Tx::CloseMark {
+                l.pushed.push(tx);
+                continue;
+            }
             match wire::tx_to_broker(&tx, v5) {
                 Ok(p) => {
                     l.ibuf.lock().push_back(p);
                     l.pushed.push(tx);
                 }
                 Err(e) => {
-                    // the decoder rejected the frame: a real link would end here
-                    self.model.note(format!("frame rejected by broker decoder: {e}"));
-                    l.pushed.push(Tx::Raw(vec![]));
-                    let _ = l.pushed.pop();
+                    self.model.note(format!("frame rejected before the router: {e}"));
+                    return false;
                 }
             }
         }
+        true
     }
 
     pub fn notify(&mut self, ci: usize) {
@@ -353,8 +360,15 @@ impl RouterWorld {
     }
 
     pub fn send(&mut self, ci: usize, txs: Vec<Tx>) {
-        self.push(ci, txs);
-        self.notify(ci);
+        let ok = self.push(ci, txs);
+        let has = self.clients[ci].link.as_ref().is_some_and(|l| !l.pushed.is_empty());
+        if has {
+            self.notify(ci);
+        }
+        if !ok {
+            // network-level protocol error: the link task ends, Disconnect then PublishWill
+            props::end_link(self, ci, vec![LateEv::Disconnect, LateEv::Will], true);
+        }
     }
 
     /// The link takes one wake-up and swaps the outgoing buffer. Returns false when there
@@ -386,7 +400,13 @@ impl RouterWorld {
                 Out::EncodeError(e) => self.viol("encode_error", format!("towards {} (v5={v5}): {e}", NAMES[ci])),
                 Out::EncodePanic(e) => self.viol("encode_panic", format!("towards {} (v5={v5}): {e}", NAMES[ci])),
                 Out::ClientDecodeError(e) => {
-                    self.viol("client_cannot_decode", format!("towards {} (v5={v5}): {e}", NAMES[ci]))
+                    // client/broker codec interoperability is property C04's business
+                    // (engine E3); here it only counts for the cross-version property
+                    if self.prop == "C20" {
+                        self.viol("client_cannot_decode", format!("towards {} (v5={v5}): {e}", NAMES[ci]))
+                    } else {
+                        self.model.note(format!("client cannot decode: {e}"));
+                    }
                 }
             }
         }
@@ -424,6 +444,16 @@ impl RouterWorld {
             c.unacked.clear();
             c.rels.clear();
             c.q2.clear();
+            let stale = self.stale_disc.iter().position(|(id, _)| *id == l.id);
+            if let (Some(k), true) = (stale, self.model.registered(ci)) {
+                let (slot, who) = self.stale_disc.remove(k);
+                let d = format!(
+                    "late Disconnect event of an ended connection of {who} (slot {slot}) removed the live connection of {} that occupies the slot now",
+                    NAMES[ci]
+                );
+                self.viol("late_event_hit_live_connection", d);
+                self.model.link_lost(ci);
+            }
             self.model.link_ended_by_router(ci);
             self.ended.push(Ended {
                 name,
@@ -486,7 +516,17 @@ impl RouterWorld {
         match ev {
             LateEv::Data => self.send_event(id, Event::DeviceData, ChanEv::Data(ci, uid)),
             LateEv::Ready => self.send_event(id, Event::Ready, ChanEv::RawOther),
-            LateEv::Disconnect => self.send_event(id, Event::Disconnect, ChanEv::Disconnect(ci, uid)),
+            LateEv::Disconnect => {
+                // remember when the slot of the ended link has a new occupant by now
+                let occupied = self
+                    .clients
+                    .iter()
+                    .any(|c| c.link.as_ref().is_some_and(|l| l.id == id && l.uid != uid));
+                if occupied {
+                    self.stale_disc.push((id, name.to_string()));
+                }
+                self.send_event(id, Event::Disconnect, ChanEv::Disconnect(ci, uid))
+            }
             LateEv::Will => self.send_event(
                 id,
                 Event::PublishWill((name.to_string(), None)),
@@ -641,7 +681,86 @@ impl RouterWorld {
             }
             None => {
                 self.model.connect_refused(ci);
+                if self.router.is_some() {
+                    let live = self.model.clients.iter().filter(|c| c.registered).count();
+                    if live < self.max_conn {
+                        self.viol(
+                            "connect_refused",
+                            format!("{} was refused although only {live} of {} connections are in use", NAMES[ci], self.max_conn),
+                        );
+                    }
+                }
             }
+        }
+    }
+
+    /// After a late event of the ended link (`name`, slot `id`) was handled: every client
+    /// that was connected before and did nothing itself must still be registered.
+    fn check_late_effect(&mut self, name: &str, id: usize, ev: &LateEv, before: &[bool]) {
+        #[cfg(feature = "snapshot")]
+        {
+            let Some(r) = self.router.as_ref() else { return };
+            let snap = r.verif_snapshot();
+            let live: Vec<String> = snap.connection_map.iter().map(|(k, _)| k.clone()).collect();
+            for (ci, was) in before.iter().enumerate() {
+                if *was && self.model.registered(ci) && !live.iter().any(|n| n == NAMES[ci]) {
+                    let occupant_slot = self.model.clients[ci].conn_id;
+                    let d = format!(
+                        "late {ev:?} event of an ended connection of {name} (slot {id}) removed the live connection of {} (slot {occupant_slot})",
+                        NAMES[ci]
+                    );
+                    self.viol("late_event_hit_live_connection", d);
+                    // keep the model in step so that one defect is reported once
+                    self.model.link_lost(ci);
+                    if let Some(l) = self.clients[ci].link.take() {
+                        drop(l);
+                    }
+                }
+            }
+        }
+        #[cfg(not(feature = "snapshot"))]
+        {
+            let _ = (name, id, ev, before);
+        }
+    }
+
+    /// C03: from this state a fresh subscriber and a fresh publisher are served
+    pub fn probe(&mut self) {
+        if self.dead.is_some() {
+            return;
+        }
+        let (s, p) = (3usize, 4usize);
+        for ci in [s, p] {
+            if self.clients[ci].link.is_none() {
+                self.connect(ci, true, None, 0);
+            }
+        }
+        self.settle(true);
+        if self.clients[s].link.is_none() || self.clients[p].link.is_none() {
+            self.viol("probe_connect", "a fresh client could not connect after this history".into());
+            return;
+        }
+        let before = self.model.clients[s].forwards;
+        self.send(s, vec![Tx::Subscribe { pkid: 60001, filters: vec![("probe/#".into(), 0)], sub_id: None }]);
+        self.settle(true);
+        self.send(
+            p,
+            vec![Tx::Publish {
+                topic: "probe/x".into(),
+                qos: 0,
+                retain: false,
+                dup: false,
+                pkid: 0,
+                payload: b"probe".to_vec(),
+                props: None,
+            }],
+        );
+        self.settle(true);
+        if self.dead.is_none() && self.model.clients[s].forwards != before + 1 {
+            self.viol(
+                "probe_delivery",
+                "a fresh subscriber did not receive a fresh publisher's message after this history".into(),
+            );
         }
     }
 
@@ -657,6 +776,7 @@ impl RouterWorld {
 
     fn harness_hash(&self, h: &mut impl Hasher) {
         self.manual.hash(h);
+        self.stale_disc.hash(h);
         self.outbox.hash(h);
         self.dead.is_some().hash(h);
         for c in self.clients.iter() {
@@ -727,6 +847,8 @@ impl World for RouterWorld {
             turns: 0,
             pending_viols: vec![],
             prop: cfg.prop_static(),
+            max_conn: cfg.max_conn,
+            stale_disc: vec![],
         };
         for a in cfg.prelude.iter() {
             props::apply(&mut w, cfg, a);
@@ -747,9 +869,23 @@ impl World for RouterWorld {
         if self.dead.is_some() {
             return;
         }
+        // a late event of an ended link must not act on any connection established later
+        let late = if let Act::Late { e } = a {
+            self.ended
+                .get(*e as usize)
+                .map(|x| (x.name.clone(), x.id, x.pending.front().cloned()))
+        } else {
+            None
+        };
+        let before: Vec<bool> = self.model.clients.iter().map(|c| c.registered).collect();
         props::apply(self, cfg, a);
         if !self.manual {
             self.settle(true);
+        }
+        if let Some((name, id, Some(ev))) = late {
+            if !self.manual {
+                self.check_late_effect(&name, id, &ev, &before);
+            }
         }
         out.append(&mut self.pending_viols);
         self.model.take_violations(self.prop, out);
@@ -779,6 +915,9 @@ impl World for RouterWorld {
             return 0;
         }
         props::closure(&mut self, cfg);
+        if cfg.prop == "C03" {
+            self.probe();
+        }
         out.append(&mut self.pending_viols);
         self.model.take_violations(self.prop, out);
         if out.is_empty() && self.dead.is_none() {
